@@ -220,6 +220,17 @@ def work(task):
         for mtext in mains + ['import lib.F;\nT(F(1));\n']:
           stats['files'] += 1
           outcomes.add(compare(mtext, stats, viol, import_root=root, kind='imports'))
+      # modules sharing a base name (the prefix of each is made unique from its path components)
+      root = os.path.join(base, 'root_shared')
+      for path, val in (('a/util', 1), ('b/util', 2), ('util', 3), ('net/shared/util', 4), ('geo/shared/util', 5), ('net/util', 6)):
+        os.makedirs(os.path.dirname(os.path.join(root, path)), exist_ok=True)
+        open(os.path.join(root, path + '.l'), 'w').write('Priv(%d);\nVal(x) :- Priv(x);\n' % val)
+      shared_mains = ['import a.util.Val as V1;\nimport b.util.Val as V2;\nT(x) :- V1(x) | V2(x);\n', 'import b.util.Val as V2;\nimport a.util.Val as V1;\nimport util.Val;\nT(x) :- V1(x) | V2(x) | Val(x);\n',
+                      'import util.Val;\nimport geo.shared.util.Val as G;\nimport net.shared.util.Val as N;\nimport net.util.Val as M;\nT(x) :- Val(x) | G(x) | N(x) | M(x);\n',
+                      'import net.util.Val as M;\nimport net.shared.util.Val as N;\nimport a.util.Val as A;\nT(x) :- M(x) | N(x) | A(x);\n']
+      for mtext in shared_mains:
+        stats['files'] += 1
+        outcomes.add(compare(mtext, stats, viol, import_root=root, kind='imports'))
       for rep in range(2):
         for k in range(4):
           for mtext in mains:
